@@ -93,6 +93,18 @@ ExitFollowsEnter(h, e) ==
             Cardinality({i \in 1..Len(h) : h[i].type = t \o "StateEntered" /\ h[i].name = e.name})
               > Cardinality({i \in 1..Len(h) : h[i].type = t \o "StateExited" /\ h[i].name = e.name})
 
+(* "... and, unless it failed or was cut short by a failure elsewhere in its Parallel/Map state, StateExited with its  *)
+(* output": in the history of an execution that SUCCEEDED and in which nothing failed, timed out or was aborted, every  *)
+(* state has been exited as often as it was entered                                                                    *)
+TroubleTypes == {"ExecutionFailed", "ExecutionAborted", "ExecutionTimedOut", "LambdaFunctionFailed", "LambdaFunctionTimedOut",
+                 "TaskFailed", "TaskTimedOut", "MapStateFailed", "ParallelStateFailed", "MapIterationFailed", "MapIterationAborted",
+                 "MapStateAborted", "ParallelStateAborted", "FailStateEntered", "LambdaFunctionScheduleFailed", "LambdaFunctionStartFailed"}
+EnteredStatesExit(h) ==
+    (Len(h) > 0 /\ h[Len(h)].type = "ExecutionSucceeded" /\ \A i \in 1..Len(h) : h[i].type \notin TroubleTypes) =>
+        \A t \in StateTypeNames : \A nm \in {h[i].name : i \in {i \in 1..Len(h) : h[i].type = t \o "StateEntered"}} :
+            Cardinality({i \in 1..Len(h) : h[i].type = t \o "StateEntered" /\ h[i].name = nm})
+              = Cardinality({i \in 1..Len(h) : h[i].type = t \o "StateExited" /\ h[i].name = nm})
+
 NothingAfterTerminal(h) ==
     \A i \in 1..Len(h) : h[i].type \in HistTerminalTypes => i = Len(h)
 
